@@ -2967,7 +2967,7 @@ void dtw_wps_positivize(DTWWps* p, seq_t *wps, idx_t l1, idx_t l2, idx_t rb, idx
         for (i=rb; i<re; i++) {
             wpsi = dtw_wps_loc_columns(p, i, &cbs, &ces, l1, l2);
             for (j=MAX(cb,cbs); j<MIN(ce,ces); j++) {
-                if (wps[wpsi] > 0 && wps[wpsi] != INFINITY) {
+                if (wps[wpsi] < 0 && wps[wpsi] != -INFINITY) {
                     wps[wpsi] = -wps[wpsi];
                 }
                 wpsi++;
@@ -2992,7 +2992,7 @@ void dtw_wps_positivize(DTWWps* p, seq_t *wps, idx_t l1, idx_t l2, idx_t rb, idx
             /* printf("--> [%zu,%zu] -- %zu + %zu\n", cbp, cep, wpsi, cb-cbs); */
             idx = wpsi + (cb - cbs);
             for (j=cbp; j<cep; j++) {
-                if (wps[idx] < 0 && wps[idx] != INFINITY) {
+                if (wps[idx] < 0 && wps[idx] != -INFINITY) {
                     wps[idx] = -wps[idx];
                 }
                 idx++;
@@ -3011,7 +3011,7 @@ void dtw_wps_positivize(DTWWps* p, seq_t *wps, idx_t l1, idx_t l2, idx_t rb, idx
             /* printf("--> [%zu,%zu] -- %zu + %zu\n", cbp, cep, wpsi, cb-cbs); */
             idx = wpsi + (cb - cbs);
             for (j=cbp; j<cep; j++) {
-                if (wps[idx] < 0 && wps[idx] != INFINITY) {
+                if (wps[idx] < 0 && wps[idx] != -INFINITY) {
                     wps[idx] = -wps[idx];
                 }
                 idx++;
